@@ -33,7 +33,7 @@ impl IrValue {
         match self {
             Native(x) => {
                 let bytes = x.to_bytes_le();
-                if n as u32 > F::NUM_BITS.div_ceil(8) || bytes[n..].iter().any(|&b| b != 0) {
+                if n > F::NUM_BITS.div_ceil(8) as usize || bytes[n..].iter().any(|&b| b != 0) {
                     Err(Error::Other(format!("cannot convert {x} to Bytes({n})")))
                 } else {
                     Ok(bytes[..n].to_vec().into())
